@@ -80,3 +80,53 @@ Example C08_example :
 Proof.
   cbv zeta. split; [repeat constructor; simpl; lia|]. vm_compute. repeat split; reflexivity.
 Qed.
+
+(* ---------------------------------------------------------------------- *)
+(* The directory after a restart (C04 across a restart).  For an image whose file names are distinct
+   and well formed (compressed CAS names carry a positive logical size, other names none): after
+   [recover] the set of file names is exactly the set of names of the indexed entries, and every
+   indexed entry's file is one of the image's files with the recorded length. *)
+From BR Require Proofs.Disk_inv1.
+
+Theorem C08_recover_dir :
+  forall (max_size hard_limit : Z) (image : list file),
+    0 < max_size -> NoDup (map f_path image) -> Forall file_sane image -> Forall path_wf image ->
+    let d := recover max_size hard_limit image in
+    Permutation.Permutation (map f_path (files d)) (map Disk_inv1.entry_path (map ent (order (lru d)))) /\
+    NoDup (map f_path (files d)) /\
+    (forall e, In e (order (lru d)) ->
+       exists f, In f image /\ find_file (Disk_inv1.entry_path (ent e)) (files d) = Some f
+                 /\ f_len f = sizeOnDisk (evalue (ent e))).
+Proof. exact recover_dir. Qed.
+Print Assumptions C08_recover_dir.
+
+(* Acknowledged data is kept when it fits: if the keys of the image's files are pairwise distinct and
+   the block-rounded file sizes sum to at most max_size, the restart evicts nothing: every file
+   survives and is indexed under its key with the item the loader derives from it. *)
+Theorem C08_acked_kept_when_fits :
+  forall (max_size hard_limit : Z) (image : list file),
+    0 < max_size -> NoDup (map fkey image) -> Forall file_sane image ->
+    sumZ fblocks image <= max_size ->
+    let d := recover max_size hard_limit image in
+    files d = image /\ map ent (order (lru d)) = map file_entry image /\
+    (forall f, In f image -> peek (fkey f) (lru d) = Some (item_of_file f)).
+Proof. exact recover_keeps_when_fits. Qed.
+Print Assumptions C08_acked_kept_when_fits.
+
+Example C08_example_fits :
+  let h1 := "1111111111111111111111111111111111111111111111111111111111111111" in
+  let h2 := "2222222222222222222222222222222222222222222222222222222222222222" in
+  let image := [ mkFile (mkPath ("cas/" ++ h1) 5000 "11" false) 1 2100 true 5000;
+                 mkFile (mkPath ("ac/" ++ h2) 0 "22" false) 2 300 true 300 ] in
+  NoDup (map f_path image) /\ NoDup (map fkey image) /\ Forall file_sane image /\ Forall path_wf image /\
+  sumZ fblocks image <= 20480 /\
+  map f_path (files (recover 20480 0 image)) = map f_path image.
+Proof.
+  cbv zeta. split; [|split; [|split; [|split; [|split]]]].
+  - repeat constructor; simpl; intuition discriminate.
+  - repeat constructor; simpl; intuition discriminate.
+  - repeat constructor; simpl; lia.
+  - repeat constructor.
+  - vm_compute. discriminate.
+  - vm_compute. reflexivity.
+Qed.
